@@ -1,11 +1,24 @@
-"""Render an abstract program (gen/progen.py, spec/AldorSem.tla) as Aldor source text (axllib dialect).
+"""Render an abstract program (gen/progen.py, spec/AldorSem.tla) as Aldor source text.
 
 Rendering is purely syntactic: every construct is spelled in one fixed way, all literals are
 type-qualified, every sub-expression is parenthesised, and `free` declarations are derived from
 the assignments that occur in a function / lambda / generator body.
+
+Dialects (DESIGN.md 3.1): "axllib" (default: SingleInteger / Integer / `print <<`) and "libaldor"
+(MachineInteger / Integer (= AldorInteger) / `stdout <<`, the library for which Java class archives
+exist; used by C12).  The dialect is chosen by render(prog, dialect=...) or, when that is None, by
+prog["render_opts"]["dialect"]; without either the text is the axllib text, unchanged.
 """
 
 TYPE_MACROS = "SI ==> SingleInteger;\nBI ==> Integer;\n"
+
+DIALECTS = {
+    "axllib": {"header": ['#include "axllib"', TYPE_MACROS.rstrip()], "print": "print", "nil": "nil", "pow_bi_exp": True},
+    # libaldor: `^: (Integer, MachineInteger) -> Integer`; the empty list is `empty`; `error` writes its
+    # message to the standard error stream; arrays are 0-based there and are not rendered in this dialect
+    "libaldor": {"header": ['#include "aldor"', '#include "aldorio"', "SI ==> MachineInteger;\nBI ==> Integer;"],
+                 "print": "stdout", "nil": "empty", "pow_bi_exp": False},
+}
 
 
 def tname(t):
@@ -50,9 +63,11 @@ OPS = {"add": "+", "sub": "-", "mul": "*", "quo": "quo", "rem": "rem", "mod": "m
 
 
 class Renderer(object):
-    def __init__(self, prog, names=None):
+    def __init__(self, prog, names=None, dialect=None):
         self.p = prog
         self.names = names or {}
+        self.dialect = dialect or prog.get("render_opts", {}).get("dialect") or "axllib"
+        self.D = DIALECTS[self.dialect]
 
     def nm(self, x):
         return self.names.get(x, x)
@@ -115,6 +130,8 @@ class Renderer(object):
             if o == "tobi":
                 return "(%s::BI)" % a[0]
             if o == "pow":
+                if not self.D["pow_bi_exp"]:
+                    return "(%s ^ %s)" % (a[0], a[1])
                 return "(%s ^ (%s::BI))" % (a[0], a[1])
             return "(%s %s %s)" % (a[0], OPS[o], a[1])
         if e == "if":
@@ -144,13 +161,13 @@ class Renderer(object):
         if e == "callv":
             return "(%s)(%s)" % (self.ex(x["f"]), ", ".join(self.ex(a) for a in x["args"]))
         if e == "print":
-            return "print << " + " << ".join(self.ex(a) for a in x["args"])
+            return self.D["print"] + " << " + " << ".join(self.ex(a) for a in x["args"])
         if e == "list" and len(x["args"]) == 1 and x["args"][0].get("e") in ("if", "seq") \
                 and not self.p.get("render_opts", {}).get("singleton_bracket"):
             # known finding C01 singleton-bracket: [ (if c then a else b) ] faults at run time
-            return "cons(%s, (nil@%s))" % (self.ex(x["args"][0]), tname(x["t"]))
+            return "cons(%s, (%s@%s))" % (self.ex(x["args"][0]), self.D["nil"], tname(x["t"]))
         if e == "list":
-            return "([%s]@%s)" % (", ".join(self.ex(a) for a in x["args"]), tname(x["t"])) if x["args"] else "(nil@%s)" % tname(x["t"])
+            return "([%s]@%s)" % (", ".join(self.ex(a) for a in x["args"]), tname(x["t"])) if x["args"] else "(%s@%s)" % (self.D["nil"], tname(x["t"]))
         if e == "cons":
             return "cons(%s, %s)" % (self.ex(x["h"]), self.ex(x["tl"]))
         if e == "first":
@@ -161,6 +178,8 @@ class Renderer(object):
             return "empty?(%s)" % self.ex(x["l"])
         if e == "len":
             return "(#(%s))" % self.ex(x["l"])
+        if e in ("alen", "newarr", "aref", "aset") and self.dialect != "axllib":
+            raise ValueError("arrays are not rendered in dialect %s" % self.dialect)
         if e == "alen":
             return "(#(%s))" % self.ex(x["a"])
         if e == "newarr":
@@ -249,9 +268,12 @@ class Renderer(object):
         walk(self.p)
         return acc
 
-    def program(self):
+    def parts(self):
+        """(preamble lines, [(kind, index, text)]): the header/macros/import lines and one text per top-level form
+        ("f", i) = function p["funs"][i], ("t", i) = p["top"][i], in file order.  Used by program() and by the
+        form-by-form rendering for the interactive loop (C13)."""
         p = self.p
-        out = ['#include "axllib"', TYPE_MACROS.rstrip()]
+        out = list(self.D["header"])
         for i, fs in enumerate(p.get("recs", [])):
             out.append("R%d ==> Record(%s);" % (i, ", ".join("f%d: %s" % (j + 1, tname(t)) for j, t in enumerate(fs))))
         for i, bs in enumerate(p.get("uns", [])):
@@ -271,23 +293,34 @@ class Renderer(object):
         forms = []
         if order:
             for kind, i in order:
-                forms.append(("fun", p["funs"][i]) if kind == "f" else ("top", p["top"][i]))
+                forms.append(("fun", i, p["funs"][i]) if kind == "f" else ("top", i, p["top"][i]))
         else:
-            forms = [("fun", f) for f in p["funs"]] + [("top", t) for t in p["top"]]
-        for kind, f in forms:
+            forms = [("fun", i, f) for i, f in enumerate(p["funs"])] + [("top", i, t) for i, t in enumerate(p["top"])]
+        texts = []
+        for kind, i, f in forms:
             if kind == "fun":
                 ps = ", ".join("%s: %s" % (self.nm(a), tname(t)) for a, t in zip(f["ps"], f["pts"]))
-                out.append("%s(%s): %s == { %s%s }" % (self.nm(f["name"]), ps, tname(f["rt"]),
-                                                       self.free_decl(f["body"], f["ps"]), self.body_items(f["body"])))
+                texts.append(("f", i, "%s(%s): %s == { %s%s }" % (self.nm(f["name"]), ps, tname(f["rt"]),
+                                                                  self.free_decl(f["body"], f["ps"]), self.body_items(f["body"]))))
             elif f["d"] == "var":
-                out.append("%s: %s := %s;" % (self.nm(f["x"]), tname(f["t"]), self.ex(f["init"])))
+                texts.append(("t", i, "%s: %s := %s;" % (self.nm(f["x"]), tname(f["t"]), self.ex(f["init"]))))
             else:
-                out.append(self.ex(f["x"]) + ";")
-        return "\n".join(out) + "\n"
+                texts.append(("t", i, self.ex(f["x"]) + ";"))
+        return out, texts
+
+    def program(self):
+        pre, texts = self.parts()
+        return "\n".join(pre + [t for (_, _, t) in texts]) + "\n"
 
 
-def render(prog, names=None):
-    return Renderer(prog, names).program()
+def render(prog, names=None, dialect=None):
+    return Renderer(prog, names, dialect).program()
+
+
+def render_forms(prog, names=None, dialect=None):
+    """One text per top-level form, for feeding a program form by form to the interactive loop:
+    returns (preamble_lines, [(kind, index, text)]), see Renderer.parts."""
+    return Renderer(prog, names, dialect).parts()
 
 
 def expected_text(out_atoms):
